@@ -381,6 +381,7 @@ def correspondence(ctx, model_ok=True):
            "exhaustive_part": {"cases": len(exh) + len(pres), "complete": True},
            "samples": cases[:3], "model_runner": "Eval vm_compute in generated cases files (sharded coqc)",
            "failures": [], "broken": []}
+    out["all_cases"] = cases          # the driver runs the property oracle on these as well
     ok, log = C.make(["Model/Centrality.vo", "Lib/QCheck.vo"])
     if not ok:
         out["broken"].append({"what": "model Model/Centrality.v does not build", "detail": log[-800:]})
